@@ -1,26 +1,40 @@
 --------------------------- MODULE GroupSub ---------------------------
 (***************************************************************************)
-(* Consumer-group subscriptions on ONE partition (server/partition.go:     *)
-(* Subscribe, newSubscribeLoop, removeGroupSubscriber, subscription.Close) *)
+(* Consumer-group subscriptions on ONE partition (server/api.go:           *)
+(* SubscribeInternal; server/partition.go: Subscribe, newSubscribeLoop,    *)
+(* removeGroupSubscriber, subscription.Close), as served by the partition  *)
+(* LEADER ("L") and by an in-sync FOLLOWER ("F": every server has its own  *)
+(* partition object with its own group table).                             *)
 (* Property C13: at any moment at most one subscription per consumer group *)
 (* is active on a partition.                                               *)
 (*                                                                         *)
 (* Abstract state                                                          *)
-(*   subs = every subscription the partition ever handed out, in creation  *)
-(*          order: [g, c, e, open, loop]                                   *)
+(*   subs = every subscription handed out for the partition, in creation   *)
+(*          order: [n, g, c, e, open, loop]                                *)
+(*            n     the server that serves it ("L" | "F")                  *)
 (*            g     group id ("" = plain subscription, no group)           *)
 (*            c, e  consumer id and group epoch of the request             *)
 (*            open  the subscription's `closed` channel is not closed      *)
 (*            loop  its subscribe loop (goroutine) has not returned yet    *)
-(*   reg  = partition.consumers: group -> index into subs of the           *)
-(*          registered member (0 = no entry)                               *)
+(*   reg  = partition.consumers of each server: node -> group -> index     *)
+(*          into subs of the registered member (0 = no entry)              *)
 (*   obs  = result of the last call [a, err, id]                           *)
 (*                                                                         *)
+(* A subscribe request q = [n, ris, g, c, e, bad, stop]:                   *)
+(*   n    the server it is sent to        ris  ReadISRReplica flag         *)
+(*   g, c, e  group, consumer, group epoch                                 *)
+(*   bad  its start/stop positions are invalid                             *)
+(*   stop "none" = open-ended, "bounded" = it carries a stop position that *)
+(*        is not reached yet (the subscription keeps running)              *)
+(*                                                                         *)
 (* Steps (one per critical section of the code):                           *)
-(*   DoSubscribe(g, c, e, bad)  partition.Subscribe, atomic under          *)
-(*        consumersMu for a group request: epoch comparison, start/stop    *)
-(*        offset resolution (bad = the request's positions are invalid),   *)
-(*        close of the previous member, start of the loop, registration    *)
+(*   DoSubscribe(q)  SubscribeInternal routing (a follower serves only     *)
+(*        ReadISRReplica requests and never group requests - its group     *)
+(*        table knows nothing about the leader's member), then             *)
+(*        partition.Subscribe, atomic under consumersMu for a group        *)
+(*        request: epoch comparison, start/stop offset resolution, close   *)
+(*        of the previous member, start of the loop, registration          *)
+(*   DoBurst  concurrent subscribes (real goroutines)                      *)
 (*   DoCancelByClient(s)  subscription.Close() - what apiServer.Subscribe  *)
 (*        does when the client's context ends or the loop reported an      *)
 (*        error (idempotent)                                               *)
@@ -32,19 +46,25 @@
 (* can it hand messages to a consumer.  (A closed subscription whose loop  *)
 (* has not noticed yet delivers nothing: the loop selects on `closed`; a   *)
 (* loop that ended leaves an open but dead subscription behind until the   *)
-(* API handler closes it.)                                                 *)
+(* API handler closes it.)  Activity is counted over the whole partition,  *)
+(* whichever server serves the subscription.                               *)
 (***************************************************************************)
 EXTENDS Integers, Sequences, FiniteSets
 
 CONSTANTS Groups,      \* real consumer groups (strings); "" is the plain subscription
-          CleanupById  \* TRUE = removeGroupSubscriber as liftbridge shipped it (compares
+          CleanupById, \* TRUE = removeGroupSubscriber as liftbridge shipped it (compares
                        \* consumer ids; defective, kept to generate the counterexample that
                        \* is replayed on the real code); FALSE = the code as it is today
+          GroupOnFollower, \* TRUE = a follower serves ReadISRReplica GROUP requests (defective
+                       \* variant, for counterexamples); FALSE = today's code refuses them
+          OnlyOpenEnded    \* TRUE = only open-ended group subscriptions are registered
+                       \* (defective variant); FALSE = today's code registers every one
 
 VARIABLES subs, reg, obs
 vars == <<subs, reg, obs>>
 
 NoGroup == ""
+Nodes == {"L", "F"}
 Idx == 1..Len(subs)
 
 Active(ss, s) == ss[s].open /\ ss[s].loop
@@ -53,36 +73,49 @@ ActiveSet(ss) == {s \in 1..Len(ss) : Active(ss, s)}
 
 Init ==
   /\ subs = <<>>
-  /\ reg = [g \in Groups |-> 0]
+  /\ reg = [n \in Nodes |-> [g \in Groups |-> 0]]
   /\ obs = [a |-> "Open", err |-> "", id |-> 0]
 
 -----------------------------------------------------------------------------
 (* The actions as the code performs them *)
 
+\* apiServer.SubscribeInternal: which requests reach partition.Subscribe
+Route(q) ==
+  IF q.n = "L" THEN "serve"
+  ELSE IF ~q.ris THEN "notleader"
+  ELSE IF q.g # NoGroup /\ ~GroupOnFollower THEN "invalid"
+  ELSE "serve"
+
 \* partition.Subscribe.  Order in the code: (consumersMu) epoch comparison,
 \* getStartOffset/getStopOffset validation, close of the previous member,
 \* reader + loop start, registration.
-DoSubscribe(g, c, e, bad) ==
-  LET ex == IF g = NoGroup THEN 0 ELSE reg[g] IN
-  IF ex # 0 /\ subs[ex].e > e THEN
+DoSubscribe(q) ==
+  LET ex == IF q.g = NoGroup THEN 0 ELSE reg[q.n][q.g] IN
+  IF Route(q) # "serve" THEN
+    /\ obs' = [a |-> "Subscribe", err |-> Route(q), id |-> 0]
+    /\ UNCHANGED <<subs, reg>>
+  ELSE IF ex # 0 /\ subs[ex].e > q.e THEN
     /\ obs' = [a |-> "Subscribe", err |-> "stale", id |-> 0]
     /\ UNCHANGED <<subs, reg>>
-  ELSE IF bad THEN
+  ELSE IF q.bad THEN
     /\ obs' = [a |-> "Subscribe", err |-> "invalid", id |-> 0]
     /\ UNCHANGED <<subs, reg>>
   ELSE
     LET closedPrev == IF ex = 0 THEN subs ELSE [subs EXCEPT ![ex].open = FALSE]
-        n == Len(subs) + 1 IN
-    /\ subs' = Append(closedPrev, [g |-> g, c |-> c, e |-> e, open |-> TRUE, loop |-> TRUE])
-    /\ reg' = IF g = NoGroup THEN reg ELSE [reg EXCEPT ![g] = n]
-    /\ obs' = [a |-> "Subscribe", err |-> "", id |-> n]
+        k == Len(subs) + 1 IN
+    /\ subs' = Append(closedPrev, [n |-> q.n, g |-> q.g, c |-> q.c, e |-> q.e,
+                                   open |-> TRUE, loop |-> TRUE])
+    /\ reg' = IF q.g = NoGroup \/ (OnlyOpenEnded /\ q.stop # "none") THEN reg
+              ELSE [reg EXCEPT ![q.n][q.g] = k]
+    /\ obs' = [a |-> "Subscribe", err |-> "", id |-> k]
 
 \* n subscribe calls of the same group with the same epoch, distinct consumers
-\* cs[1..n], issued CONCURRENTLY (real goroutines released together).  Under
-\* consumersMu they take effect one after the other in some order: the one that
-\* comes last (the k-th) stays, every other one is closed by its successor.
+\* cs[1..n], issued CONCURRENTLY on the leader (real goroutines released
+\* together).  Under consumersMu they take effect one after the other in some
+\* order: the one that comes last (the k-th) stays, every other one is closed by
+\* its successor.
 DoBurst(g, cs, e) ==
-  LET ex == reg[g]
+  LET ex == reg["L"][g]
       n  == Len(cs) IN
   IF ex # 0 /\ subs[ex].e > e THEN
     /\ obs' = [a |-> "Burst", err |-> "stale", id |-> 0]
@@ -90,9 +123,10 @@ DoBurst(g, cs, e) ==
   ELSE
     \E k \in 1..n :
       LET closedPrev == IF ex = 0 THEN subs ELSE [subs EXCEPT ![ex].open = FALSE]
-          new == [i \in 1..n |-> [g |-> g, c |-> cs[i], e |-> e, open |-> (i = k), loop |-> TRUE]] IN
+          new == [i \in 1..n |-> [n |-> "L", g |-> g, c |-> cs[i], e |-> e,
+                                  open |-> (i = k), loop |-> TRUE]] IN
       /\ subs' = closedPrev \o new
-      /\ reg' = [reg EXCEPT ![g] = Len(subs) + k]
+      /\ reg' = [reg EXCEPT !["L"][g] = Len(subs) + k]
       /\ obs' = [a |-> "Burst", err |-> "", id |-> n]
 
 \* subscription.Close()
@@ -102,19 +136,21 @@ DoCancelByClient(s) ==
   /\ obs' = [a |-> "Cancel", err |-> "", id |-> s]
   /\ UNCHANGED reg
 
-\* the loop of subscription s returns; deferred removeGroupSubscriber:
-\* the group entry is removed only if it still refers to this very
-\* subscription (after fix 'remove the group entry only for the same
+\* the loop of subscription s returns; deferred removeGroupSubscriber on the
+\* server that served it: the group entry is removed only if it still refers to
+\* this very subscription (after fix 'remove the group entry only for the same
 \* subscription'; the original code compared consumer ids, see RemoveById)
 RemoveBySub(s) ==
-  LET g == subs[s].g IN
+  LET g == subs[s].g
+      n == subs[s].n IN
   IF g = NoGroup THEN reg
-  ELSE IF reg[g] = s THEN [reg EXCEPT ![g] = 0] ELSE reg
+  ELSE IF reg[n][g] = s THEN [reg EXCEPT ![n][g] = 0] ELSE reg
 
 RemoveById(s) ==
-  LET g == subs[s].g IN
+  LET g == subs[s].g
+      n == subs[s].n IN
   IF g = NoGroup THEN reg
-  ELSE IF reg[g] # 0 /\ subs[reg[g]].c = subs[s].c THEN [reg EXCEPT ![g] = 0] ELSE reg
+  ELSE IF reg[n][g] # 0 /\ subs[reg[n][g]].c = subs[s].c THEN [reg EXCEPT ![n][g] = 0] ELSE reg
 
 DoLoopExit(s) ==
   /\ s \in Idx /\ subs[s].loop
@@ -125,7 +161,7 @@ DoLoopExit(s) ==
 -----------------------------------------------------------------------------
 (* What property C13 demands *)
 
-\* at most one active subscription per group
+\* at most one active subscription per group, on whichever server
 C13_OneActive == \A g \in Groups : Cardinality(ActiveOf(subs, g)) <= 1
 
 SameSubs == /\ Len(subs') = Len(subs)
@@ -134,26 +170,26 @@ SameSubs == /\ Len(subs') = Len(subs)
 \* some subscription of the group that is still active or still registered
 \* carries a newer epoch than e
 NewerAround(g, e) == \E s \in Idx : /\ subs[s].g = g /\ subs[s].e > e
-                                    /\ (Active(subs, s) \/ reg[g] = s)
+                                    /\ (Active(subs, s) \/ reg[subs[s].n][g] = s)
 
-P_Subscribe(g, c, e, bad) ==
+P_Subscribe(q) ==
   IF obs'.err # "" THEN
     \* refused (for whatever reason): everything is left untouched ...
     /\ SameSubs /\ reg' = reg
     \* ... and a refusal for the epoch is justified by a newer epoch
-    /\ obs'.err = "stale" => (g # NoGroup /\ NewerAround(g, e))
+    /\ obs'.err = "stale" => (q.g # NoGroup /\ NewerAround(q.g, q.e))
   ELSE
     \* accepted: never while a member with a newer epoch is active
-    /\ g # NoGroup => ~\E s \in ActiveOf(subs, g) : subs[s].e > e
+    /\ q.g # NoGroup => ~\E s \in ActiveOf(subs, q.g) : subs[s].e > q.e
     \* the new subscription exists, is active and carries the request's ids
     /\ Len(subs') = Len(subs) + 1
-    /\ LET n == Len(subs') IN
-       /\ subs'[n].g = g /\ subs'[n].c = c /\ subs'[n].e = e /\ Active(subs', n)
-       \* every previously active member of the group is cancelled,
-       \* nothing else becomes active, other groups are not disturbed
-       /\ g # NoGroup => ActiveOf(subs', g) = {n}
+    /\ LET k == Len(subs') IN
+       /\ subs'[k].g = q.g /\ subs'[k].c = q.c /\ subs'[k].e = q.e /\ Active(subs', k)
+       \* every previously active member of the group - on any server - is
+       \* cancelled, nothing else becomes active, other groups are not disturbed
+       /\ q.g # NoGroup => ActiveOf(subs', q.g) = {k}
        /\ \A s \in Idx : Active(subs', s) => Active(subs, s)
-       /\ \A s \in Idx : (subs[s].g # g \/ g = NoGroup) => (Active(subs', s) <=> Active(subs, s))
+       /\ \A s \in Idx : (subs[s].g # q.g \/ q.g = NoGroup) => (Active(subs', s) <=> Active(subs, s))
 
 \* concurrent subscribes of one group: afterwards at most one member is active
 \* (C13_OneActive), either all are refused (and nothing changed) or all exist;
@@ -184,9 +220,11 @@ P_LoopExit(s) == P_Cancel(s)
 (* trace is drift, not a violation)                                        *)
 
 \* every active group member is the registered one
-ActiveRegistered == \A s \in Idx : (subs[s].g # NoGroup /\ Active(subs, s)) => reg[subs[s].g] = s
+ActiveRegistered == \A s \in Idx : (subs[s].g # NoGroup /\ Active(subs, s)) => reg[subs[s].n][subs[s].g] = s
 \* a registered entry belongs to its group and its loop still runs
-RegOK == \A g \in Groups : reg[g] # 0 => (reg[g] \in Idx /\ subs[reg[g]].g = g /\ subs[reg[g]].loop)
+RegOK == \A n \in Nodes, g \in Groups : reg[n][g] # 0 =>
+           (reg[n][g] \in Idx /\ subs[reg[n][g]].g = g /\ subs[reg[n][g]].n = n /\ subs[reg[n][g]].loop)
 TypeOK == /\ \A s \in Idx : subs[s].open \in BOOLEAN /\ subs[s].loop \in BOOLEAN
-          /\ \A g \in Groups : reg[g] \in 0..Len(subs)
+          /\ \A s \in Idx : subs[s].n \in Nodes
+          /\ \A n \in Nodes, g \in Groups : reg[n][g] \in 0..Len(subs)
 =============================================================================
